@@ -24,6 +24,21 @@ def run(ck):
     if THEOREMS:
         ck.prove('C03', THEOREMS)
     fails, mism = wk.campaign(ck, ck.scale(72, 1500), oracle, gen_kw={'strip_prob': 0.3}, coq_lanes=1, stress_every=2, line_level=True, glue=True)
+    # batches WIDER than one thread block (32 lanes) on both code paths: a launch grid that covers only whole blocks leaves the trailing
+    # lanes without stimulus, propagation and capture (the campaign above uses 1..5 lanes)
+    import random, traceback
+    wrng = random.Random(ck.seed * 7919 + 303)
+    for i in range(ck.scale(6, 120)):
+        k = wk.gen_wave_case(wrng, sims=wrng.choice([33, 40, 49, 63, 65, 70, 97]), n_gates=wrng.choice([2, 3, 5]), capmode=wrng.choice(['4', '8', 'vec']),
+                             reuse=wrng.random() < 0.5)
+        d = dict(wk.describe(k), cuda=(i % 3 != 2))
+        try:
+            what = oracle(k, wk.run_case(k, cuda=d['cuda']))
+        except Exception:
+            what = 'raises ' + traceback.format_exc()[-400:]
+        ck.count(1, 'wide-batch-rounds (33..97 lanes, GPU twin 2 of 3)')
+        if what:
+            fails.append((d, ('WaveSimCuda' if d['cuda'] else 'WaveSim') + ' wide batch: ' + what))
     ck.rule('random circuits x integer delay tables (zero/uniform/polarity-free/fully polarity-dependent/large spread) x capacities '
             '4/8/16/per-line vectors (overflowing) x single- and multi-transition input waveforms x 1..5 lanes x c_reuse; '
             'oracle: Boolean function of initial/final input values at every line and port')
@@ -39,7 +54,7 @@ def replay(rp):
         return wk.pre_extra_replay(rp['input'])
     k = wk.from_description(rp['input'])
     try:
-        w = wk.run_case(k)
+        w = wk.run_case(k, cuda=bool(rp['input'].get('cuda')))
     except Exception:
         return True
     return oracle(k, w) is not None
